@@ -4,6 +4,7 @@ package model
 
 import (
 	"fmt"
+	"math"
 	"sort"
 	"strconv"
 	"strings"
@@ -319,8 +320,10 @@ func (h *Heap) MatchVal(got any, want Val) string {
 			return fmt.Sprintf("got %T(%v), expected int %d", got, got, want.I)
 		}
 	case spec.Float:
-		if f, ok := got.(float64); !ok || f != want.F {
-			return fmt.Sprintf("got %T(%v), expected float %v", got, got, want.F)
+		// by bit pattern: what was stored comes back as it was (a negative zero is not a positive one; no arithmetic happens
+		// between storing and reading)
+		if f, ok := got.(float64); !ok || (math.Float64bits(f) != math.Float64bits(want.F) && !(math.IsNaN(f) && math.IsNaN(want.F))) {
+			return fmt.Sprintf("got %T(%v, sign bit %v), expected float %v (sign bit %v)", got, got, ok && math.Signbit(f), want.F, math.Signbit(want.F))
 		}
 	case spec.Str:
 		if s, ok := got.(string); !ok || s != want.S {
